@@ -115,10 +115,14 @@ class Ref:
 def make_block(int_shape, tag, kind):
     if not int_shape:
         # without internal axes an element is an arbitrary object: a string, or a (same length) list of strings
-        return [tag + "/0", tag + "/1"] if kind == "list" else tag
+        # ... or None (a function that legitimately returns None for this element)
+        return None if kind == "none" else [tag + "/0", tag + "/1"] if kind == "list" else tag
     arr = np.empty(int_shape, dtype=object)
     for i in np.ndindex(*int_shape):
         arr[i] = f"{tag}@{','.join(map(str, i))}"
+    if kind == "none":
+        arr[(0,) * len(int_shape)] = None
+        return arr
     return arr.tolist() if kind == "list" else arr
 
 
@@ -336,7 +340,7 @@ def histories(draw):
     for _ in range(n_ops):
         kind = draw(st.sampled_from(["dump", "dump", "dump", "get", "get", "get", "index", "reopen", "bad_get", "bad_dump"]))
         if kind == "dump":
-            ops.append({"op": "dump", "key": [draw(_axis_key(n)) for n in ext], "kind": draw(st.sampled_from(["list", "ndarray"]))})
+            ops.append({"op": "dump", "key": [draw(_axis_key(n)) for n in ext], "kind": draw(st.sampled_from(["list", "ndarray", "none"]))})
         elif kind == "get":
             ops.append({"op": "get", "key": [draw(_axis_key(n)) for n in sizes]})
         elif kind == "index":
